@@ -9,6 +9,7 @@ import Shutter.Spec.SaveFile
 import Shutter.Drive.Events
 import Shutter.Drive.TriggerDef
 import Shutter.Drive.Api
+import Shutter.Drive.Signers
 
 open Shutter
 
@@ -20,6 +21,7 @@ def dispatch (st : DState) (line : String) : DState × String :=
   | "APP" :: rest =>
     let (a, out) := Drive.App.step st.app rest
     ({ st with app := a }, out)
+  | "SG" :: rest => (st, Drive.Signers.step rest)
   | "API" :: rest => (st, Drive.Api.step rest)
   | "TD" :: rest => (st, Drive.TriggerDef.step rest)
   | "EV" :: rest => (st, Drive.Events.step rest)
